@@ -235,7 +235,15 @@ func (w *writer) messageBody(full, indent string, m *Message) {
 	}
 	for _, r := range m.ExtRanges {
 		sp := w.begin("extrange", fmt.Sprintf("%s:%d", full, r.Lo), indent, "")
-		w.write("extensions " + r.String() + ";")
+		w.write("extensions " + r.String())
+		if len(r.Options) > 0 {
+			var os []string
+			for _, o := range r.Options {
+				os = append(os, o.Name+" = "+o.Value)
+			}
+			w.write(" [" + strings.Join(os, ", ") + "]")
+		}
+		w.write(";")
 		w.end(sp)
 		w.write("\n")
 	}
